@@ -553,6 +553,12 @@ class Interp(object):
         def inv(k):
             return spec.invariant(View(env.locals, f=frame, n=n, seq=seq), k)
 
+        if spec.entry is not None:
+            for item in spec.entry(View(env.locals, f=frame, n=n, seq=seq)):
+                cname, goal = item[0], item[1]
+                using = [_b(h) for h in item[2]] if len(item) > 2 else None
+                ctx.oblige("%s/%s" % (fq, cname), _b(goal), {"line": st.lineno, "props": list(getattr(spec, "check_props", ()))},
+                           kind="loop", assume_after=True, using=using)
         ctx.oblige(lname + ".inv-entry", _b(inv(0)), {"line": st.lineno}, kind="loop")
         stored = set()
         for sub in st.body:
